@@ -88,6 +88,10 @@ MUTANTS = [
  ('c15_composite_same_flag', 'C15', R + 'core/cones/compositecone.rs', '        α = innerfcn(α, false);', '        α = innerfcn(α, true);'),
  ('c15_soc_linear_case_reverted', 'C15', R + 'core/cones/socone.rs', '        return if b < T::zero() {\n            T::min(αmax, -c / b)\n        } else {\n            αmax\n        };', '        return αmax;'),
  ('c04_switch_falls_through', 'C04', R + 'core/solver.rs', 'StrategyCheckpoint::Update(s) => {scaling = s; continue}\n                    }\n            }  // allows', 'StrategyCheckpoint::Update(s) => {scaling = s}\n                    }\n            }  // allows'),
+ ('c03_prim_norm_inf_scaled_noabs', 'C03', 'src/algebra/vecmath.rs', 'zip(self, v).fold(T::zero(), |acc, (&x, &y)| T::max(acc, T::abs(x * y)))', 'zip(self, v).fold(T::zero(), |acc, (&x, &y)| T::max(acc, x * y))'),
+ ('c01_prim_axpby_swapped', 'C01', 'src/algebra/vecmath.rs', 'zip(&mut *self, x).for_each(|(y, x)| *y = a * (*x) + b * (*y));', 'zip(&mut *self, x).for_each(|(y, x)| *y = b * (*x) + a * (*y));'),
+ ('c08_prim_norm_inf_no_abs', 'C08', 'src/algebra/vecmath.rs', '            out = T::max(out, v.abs());', '            out = T::max(out, v);'),
+ ('c10_prim_rsqrt_is_sqrt', 'C10', 'src/algebra/vecmath.rs', 'self.scalarop(|x| T::recip(T::sqrt(x)))', 'self.scalarop(|x| T::sqrt(T::recip(x)) * x / x)'),
  ('c20_println_debug', 'C20', R + 'core/solver.rs', '            if is_scaling_success {\n                StrategyCheckpoint::NoUpdate', '            if is_scaling_success {\n                println!("scaling ok");\n                StrategyCheckpoint::NoUpdate'),
  ('c20_header_wrong_m', 'C20', D + 'info_print.rs', 'writeln!(out, "  constraints   = {}", data.m)?;', 'writeln!(out, "  constraints   = {}", data.n)?;'),
  ('c18_cones_stale', 'C18', D + 'problemdata.rs', '            cones_new.as_ref().unwrap_or(&cones),\n            settings,\n        );', '            &cones,\n            settings,\n        );'),
